@@ -78,7 +78,9 @@ Conv(v) ==
     [] v.g = "embedded" -> IF v.u = "ptrnil" THEN Unspec
                            ELSE IF v.u = "unexported" THEN O(<<[pk |-> "Name", pv |-> S("n")]>>)
                            ELSE O(<<[pk |-> "Base", pv |-> O(<<[pk |-> "Title", pv |-> S("t")]>>)], [pk |-> "Name", pv |-> S("n")]>>)
-    [] v.g = "keyed" -> Unspec             \* a defined result or an error, never a crash (C09)
+    \* a map whose key type is a declared string type is a string-keyed map (C12); keys behind 'any': a defined result or an
+    \* error, never a crash (C09)
+    [] v.g = "keyed" -> IF v.u = "namedstring" THEN O(<<[pk |-> "k", pv |-> S("v")]>>) ELSE Unspec
     \* the same pointer reached twice shows the same content twice (C12: same shape)
     [] v.g = "shared" -> (CASE v.u = "struct" -> O(<<[pk |-> "A", pv |-> O(<<[pk |-> "Name", pv |-> S("c")]>>)], [pk |-> "B", pv |-> O(<<[pk |-> "Name", pv |-> S("c")]>>)]>>)
                             [] v.u = "slice" -> A(<<[t |-> "int", sym |-> "5"], [t |-> "int", sym |-> "5"], [t |-> "int", sym |-> "5"]>>)
